@@ -182,7 +182,7 @@ def case_grid(case):
                 X, Y = np.asarray(g[0]), np.asarray(g[1])
                 Xw, Yw = np.meshgrid(np.arange(nx) * (dom[0] / nx), np.arange(ny) * (dom[1] / ny))
                 if X.shape[-2:] != (ny, nx) or not (np.allclose(X.reshape(-1, ny, nx)[0], Xw, rtol=1e-13, atol=1e-12) and np.allclose(Y.reshape(-1, ny, nx)[0], Yw, rtol=1e-13, atol=1e-12)):
-                    v.append({"sub": "coords", "sig": "coords/recentred", "msg": "%s: returned coordinates are not x=i*dx, y=j*dy (x[0]=%r, y[0]=%r)" % (lab, float(X.reshape(-1, ny, nx)[0][0, 0]), float(Y.reshape(-1, ny, nx)[0][0, 0]))})
+                    v.append({"sub": "coords", "sig": "coords/recentred", "msg": "%s: returned coordinates are not x=i*dx, y=j*dy (X shape %s, first entries x=%r, y=%r)" % (lab, X.shape, float(X.ravel()[0]) if X.size else None, float(Y.ravel()[0]) if Y.size else None)})
                 if px or py:
                     gp, outp = S(qp, dome, modes, 0.0, mpp2)
                     if gp is None or not isinstance(outp, np.ndarray) or outp.shape[-2:] != (nye, nxe):
@@ -263,7 +263,7 @@ def case_interface(case):
         X, Y = np.asarray(r["grid"][0]), np.asarray(r["grid"][1])
         Xw, Yw = np.meshgrid(np.arange(nx) * (xmax / nx), np.arange(ny) * (ymax / ny))
         if X.shape[-2:] != (ny, nx) or not (np.allclose(X.reshape(-1, ny, nx)[0], Xw, rtol=1e-13, atol=1e-12) and np.allclose(Y.reshape(-1, ny, nx)[0], Yw, rtol=1e-13, atol=1e-12)):
-            v.append({"sub": "interface", "sig": "interface/coords", "msg": "%s: returned coordinates are not x=i*dx, y=j*dy (x[1]=%r, dx=%r)" % (lab, float(X.reshape(-1, ny, nx)[0][0, 1]), xmax / nx)})
+            v.append({"sub": "interface", "sig": "interface/coords", "msg": "%s: returned coordinates are not x=i*dx, y=j*dy (X shape %s, x[1]=%r, dx=%r)" % (lab, X.shape, float(X.ravel()[1]) if X.size > 1 else None, xmax / nx)})
         if modes[0] >= 64:
             anchor = sl.impulse(ny, nx, 2, 1)
             ea = float(np.abs(f[0] - anchor).max())
